@@ -250,7 +250,7 @@ func fAct(n string, p **oidc.ActorClaims) fld {
 
 func fEvents(n string, p *map[string]any) fld {
 	return fld{name: n, kind: kEvents, omit: true,
-		set: func(v any) { m, _ := v.(map[string]any); *p = m },
+		set: func(v any) { m, _ := normJSON(v).(map[string]any); *p = m }, // a copy: the value may be changed in place later, the case is the model
 		get: func() any {
 			if len(*p) == 0 {
 				return nil
@@ -287,7 +287,7 @@ func userInfoFields(p *oidc.UserInfoProfile, e *oidc.UserInfoEmail, ph *oidc.Use
 }
 
 var claimTypes = []string{"idtoken", "access", "logout", "userinfo", "introspection", "jwtprofile", "jwtrequest", "actor"}
-var scalarTypes = []string{"Audience", "Time", "Locales", "Locale", "Bool", "SpaceDelimitedArray", "LocalesText", "SpaceDelimitedArrayText"}
+var scalarTypes = []string{"Audience", "Time", "Locales", "Locale", "Bool", "SpaceDelimitedArray", "LocalesText", "SpaceDelimitedArrayText", "LocalesForm", "SpaceDelimitedArrayForm"}
 
 // bind creates a fresh zero value of the named claims type together with its claim table.
 func bind(typ string) *binding {
